@@ -40,12 +40,28 @@ Definition touch_unit_m_fixed (fac xm xe ym ye rm re : Z) : option bool :=
   | None => None
   end.
 
+(* mps_?touchunit (s, fac, i) of a tree with the repairs applied (f, d: the allowance patches; m: C08_munit_tangent.patch) *)
+Definition touch_unit_fixed (v : variant) (fac xm xe ym ye rm re : Z) : option bool :=
+  match v with
+  | VF => Some (ftouch_unit_fixed fac (f_of_dyadic rm re) (f_of_dyadic xm xe) (f_of_dyadic ym ye))
+  | VD => Some (dtouch_unit_fixed fac (dpe_of_dyadic rm re) (Cdpe (dpe_of_dyadic xm xe) (dpe_of_dyadic ym ye)))
+  | VM => touch_unit_m_fixed fac xm xe ym ye rm re
+  end.
+
 (* the outcomes for one root of a state with n roots; tu iu ic: unit-circle outcomes of the multiprecision code *)
 Definition root_obs (v : variant) (n xm xe ym ye rm re : Z) (tu iu ic small : bool) : obs :=
   match v with
   | VF => f_obs n (f_of_dyadic xm xe) (f_of_dyadic ym ye) (f_of_dyadic rm re) small
   | VD => d_obs n (Cdpe (dpe_of_dyadic xm xe) (dpe_of_dyadic ym ye)) (dpe_of_dyadic rm re) small
   | VM => m_obs n xm xe ym ye (dpe_of_dyadic rm re) tu iu ic small
+  end.
+
+(* fx: the tree has the allowance patch of that variant applied *)
+Definition root_obs_gen (fx : bool) (v : variant) (n xm xe ym ye rm re : Z) (tu iu ic small : bool) : obs :=
+  match v, fx with
+  | VF, true => f_obs_fixed n (f_of_dyadic xm xe) (f_of_dyadic ym ye) (f_of_dyadic rm re) small
+  | VD, true => d_obs_fixed n (Cdpe (dpe_of_dyadic xm xe) (dpe_of_dyadic ym ye)) (dpe_of_dyadic rm re) small
+  | _, _ => root_obs v n xm xe ym ye rm re tu iu ic small
   end.
 
 Definition mk_root (o : obs) (small_incl small_det : bool) (i : inclusion) (a : attrs) : root_in :=
